@@ -185,6 +185,34 @@ def _check_image(ctx, d, ds, fr, reqs, pending):
         st, val = _fetch(im.get_stored_frames, [1, n + 1])
         if st == 'ok':
             ctx.fail({'image': d, 'path': name, 'batch': [1, n + 1]}, 'batch accepted out-of-range number', site='get_stored_frames')
+        # ---- the same requests once the whole pixel array is cached on the object (a separate code path)
+        st, whole = _fetch(lambda: im.pixel_array)
+        if st != 'ok' or not np.array_equal(np.asarray(whole).reshape(ref.shape).astype(np.int64), ref.astype(np.int64)):
+            ctx.fail({'image': d, 'path': name, 'what': 'pixel_array'}, 'pixel_array differs from pydicom', site='pixel_array')
+        for as_index in (False, True):
+            for idx in range(n):
+                k = idx if as_index else idx + 1
+                st, val = _fetch(im.get_stored_frame, k, as_index=as_index)
+                ctx.case(path=name + '/cached', nontrivial_key=('cached', d['bits'], n, name, idx, as_index))
+                case = {'image': d, 'path': name + '/cached', 'k': k, 'as_index': as_index}
+                if st != 'ok' or not np.array_equal(np.asarray(val).astype(np.int64), ref[idx].astype(np.int64)):
+                    ctx.fail(case, 'cached-array single fetch differs from pydicom', site='get_stored_frame/cached')
+                if native and d['bits'] == 1 and st == 'ok':
+                    reqs.append(('memFrameBits', {'pd': list(ds.PixelData), 'rows': d['rows'], 'cols': d['cols'], 'samples': 1,
+                                                  'n': n, 'k': k, 'as_index': as_index}))
+                    pending.append((case, ('ok', [bool(x) for x in np.asarray(val).reshape(-1)])))
+            nums = sel if as_index else [s + 1 for s in sel]
+            for req in (nums, list(reversed(range(n))) if as_index else list(reversed(range(1, n + 1))), None):
+                st, val = _fetch(im.get_stored_frames, req, as_indices=as_index)
+                want = ref if req is None else ref[[q if as_index else q - 1 for q in req]]
+                ctx.case(path=name + '/cached-batch')
+                if st != 'ok' or not np.array_equal(np.asarray(val).astype(np.int64), want.astype(np.int64)):
+                    ctx.fail({'image': d, 'path': name + '/cached', 'batch': req, 'as_index': as_index},
+                             'cached-array batch differs from per-frame reference', site='get_stored_frames/cached')
+            st, val = _fetch(im.get_stored_frames, [n if as_index else n + 1], as_indices=as_index)
+            if st == 'ok':
+                ctx.fail({'image': d, 'path': name + '/cached', 'batch': 'n+1', 'as_index': as_index},
+                         'cached-array batch accepted out-of-range number', site='get_stored_frames/cached')
     # raw reader API
     st, rd = _fetch(hd.io.ImageFileReader, DicomBytesIO(blob))
     if st == 'ok':
@@ -344,9 +372,72 @@ def _encapsulated(ctx, reqs, pending):
                     ctx.fail(case, 'decoded lazy frame differs from the encoded array', site='read_frame/enc')
 
 
+def _colour(ctx, reqs, pending):
+    """Native 8-bit colour images with RGB / YBR_FULL / YBR_FULL_422 (2 bytes per pixel): raw frame bytes against the
+    model (byte ranges, lazy offsets), decoded frames against pydicom."""
+    import highdicom as hd
+    import pydicom
+    from pydicom.uid import ExplicitVRLittleEndian, ImplicitVRLittleEndian
+    from gen.images import MF_SC_COLOR, base_dataset, to_bytes
+    for idx in range(ctx.n(12, 120)):
+        r = ctx.rng('colour', idx)
+        pi = r.choice(['RGB', 'YBR_FULL', 'YBR_FULL_422', 'YBR_FULL_422'])
+        ts = r.choice([ExplicitVRLittleEndian, ImplicitVRLittleEndian])
+        n = r.choice([1, 2, 3, 4, 5])
+        rows, cols = r.randint(1, 5), 2 * r.randint(1, 4)
+        ds = base_dataset(MF_SC_COLOR, ts)
+        ds.NumberOfFrames = n
+        ds.Rows, ds.Columns, ds.SamplesPerPixel = rows, cols, 3
+        ds.PhotometricInterpretation = pi
+        ds.PlanarConfiguration = 0
+        ds.BitsAllocated, ds.BitsStored, ds.HighBit, ds.PixelRepresentation = 8, 8, 7, 0
+        bpp = 2 if pi == 'YBR_FULL_422' else 3
+        raw = ctx.np_rng('colourpix', idx).integers(0, 256, size=n * rows * cols * bpp, dtype=np.uint8).tobytes()
+        ds.PixelData = raw + (b'\x00' if len(raw) % 2 else b'')
+        ds['PixelData'].VR = 'OB' if ts == ExplicitVRLittleEndian else 'OW'
+        blob = to_bytes(ds)
+        try:
+            ref = pydicom.dcmread(io.BytesIO(blob)).pixel_array
+            ref = ref.reshape((n, rows, cols, 3))
+        except Exception as e:  # noqa: BLE001
+            ctx.note(f'pydicom cannot decode colour image {pi}: {type(e).__name__}')
+            continue
+        d = {'idx': idx, 'colour': pi, 'frames': n, 'rows': rows, 'cols': cols, 'ts': ts.name}
+        flen = rows * cols * bpp
+        for name, mk in (('memory', lambda: hd.Image.from_dataset(pydicom.dcmread(io.BytesIO(blob)), copy=False)),
+                         ('eager', lambda: hd.imread(io.BytesIO(blob))),
+                         ('lazy', lambda: hd.imread(io.BytesIO(blob), lazy_frame_retrieval=True))):
+            st, im = _fetch(mk)
+            if st != 'ok':
+                ctx.fail({'image': d, 'path': name}, f'could not open colour image: {im}', site='open')
+                continue
+            for k in range(0, n + 2):
+                inrange = 1 <= k <= n
+                st, val = _fetch(im.get_stored_frame, k)
+                ctx.case(path=name + '/colour', photometric=pi, inrange=inrange,
+                         nontrivial_key=('colour', pi, n, name, k, rows * cols) if inrange else None)
+                case = {'image': d, 'path': name, 'k': k}
+                if inrange:
+                    if st != 'ok':
+                        ctx.fail(case, f'in-range colour frame refused: {val}', site=f'get_stored_frame/{name}')
+                    elif not np.array_equal(np.asarray(val), ref[k - 1]):
+                        ctx.fail(case, 'colour frame differs from pydicom decode', site=f'get_stored_frame/{name}')
+                elif st == 'ok':
+                    ctx.fail(case, 'out-of-range colour frame accepted', site=f'get_stored_frame/{name}')
+                st2, rawf = _fetch(im.get_raw_frame, k)
+                if inrange and (st2 != 'ok' or bytes(rawf) != raw[(k - 1) * flen:k * flen]):
+                    ctx.fail(case, 'raw frame bytes are not the bytes of that frame', site=f'get_raw_frame/{name}')
+                if name in ('memory', 'lazy'):
+                    fn = 'memFrameBytes' if name == 'memory' else 'lazyFrameBytes'
+                    reqs.append((fn, {'pd': list(ds.PixelData), 'rows': rows, 'cols': cols, 'samples': 3, 'bits': 8, 'n': n,
+                                      'pi': pi, 'k': k, 'as_index': False}))
+                    pending.append((case, ('ok', list(rawf)) if st2 == 'ok' else ('err', _err_kind(rawf))))
+
+
 def run(ctx):
     reqs, pending = [], []
     _helpers(ctx, reqs, pending)
+    _colour(ctx, reqs, pending)
     _encapsulated(ctx, reqs, pending)
     for d, ds, fr in _images(ctx):
         _check_image(ctx, d, ds, fr, reqs, pending)
